@@ -162,8 +162,16 @@ func (f *File) Proto() string {
 	}
 	deps := append([]string(nil), d.Dependency...)
 	sort.Strings(deps)
+	pub := map[string]bool{}
+	for _, i := range d.PublicDependency {
+		pub[d.Dependency[i]] = true
+	}
 	for _, dep := range deps {
-		fmt.Fprintf(&b, "import %q;\n", dep)
+		if pub[dep] {
+			fmt.Fprintf(&b, "import public %q;\n", dep)
+		} else {
+			fmt.Fprintf(&b, "import %q;\n", dep)
+		}
 	}
 	if !f.NoGoPkg {
 		fmt.Fprintf(&b, "option go_package = %q;\n", d.GetOptions().GetGoPackage())
